@@ -761,8 +761,8 @@ def c01(tier, seed):
     for line, exps in (('./pargs a\\ ', [['a ']]), ('./pargs a\\ ; ./pargs b', [['a '], ['b']]), ('./pargs \\ ', [[' ']]), ('./pargs a\u3000', [['a\u3000']]),
                        ('  ./pargs q   &&   ./pargs r  ', [['q'], ['r']]), ('./pargs a\\\\ ', [['a\\']])):
         out.append({'line': line, 'files': {'pargs': PARGS}, 'expect_stdout': ''.join(_argv(e) for e in exps), 'area': 'argv:escaped:blank-at-the-end', 'timeout': 5})
-    # `?` and `[` are ordinary characters of an argument (the only wildcard is `*`), escaped or not
-    out.append({'line': './pargs x a\\? a? \\[ab] y', 'files': {'pargs': PARGS, 'ab': '', 'ac': ''}, 'expect_stdout': _argv(['x', 'a?', 'a?', '[ab]', 'y']), 'area': 'argv:escaped:not-a-wildcard', 'timeout': 5})
+    # an escaped or quoted `?` / `[` is an ordinary character of the argument, whatever files there are
+    out.append({'line': "./pargs x a\\? 'a?' \\[ab] \"a[bc]\" y", 'files': {'pargs': PARGS, 'ab': '', 'ac': ''}, 'expect_stdout': _argv(['x', 'a?', 'a?', '[ab]', 'a[bc]', 'y']), 'area': 'argv:escaped:not-a-wildcard', 'timeout': 5})
     # KNOWN FINDING (recorded, not repaired): the same escaped argument on a line of a SCRIPT (the positional-parameter pass re-serialises the words)
     out.append({'script': './pargs a\\ b c\n', 'files': {'pargs': PARGS}, 'expect_stdout': _argv(['a b', 'c']), 'area': 'argv:script:escaped-blank', 'timeout': 5})
     # what an escaped character does to its word ends with that word -- whatever the word ends in
